@@ -158,6 +158,7 @@ PROPS["C12"] = {
         rapid("sdpfrag", "sdpfrag", "TestVerif_C12_SdpFrag", 3000, 20000),
         rapid("header-parsers", "webserver", "TestVerif_C12_HeaderParsers", 5000, 40000),
         rapid("signalling-fuzz", "rtpconn", "TestVerif_C12_SignallingFuzz", 600, 5000),
+        rapid("http-surface", "webserver", "TestVerif_C12_HttpSurface", 3000, 20000),
     ],
     "technique": "property-based testing + fuzzing (rapid byte/structure generators, native go fuzz in the thorough tier) with a no-crash / response-received oracle",
     "assumptions": ["crashes inside pion reachable only with live DTLS/SRTP traffic are out of reach"],
@@ -170,6 +171,26 @@ PROPS["C17"] = {
     ],
     "technique": "property-based testing (rapid) of the real HTTP server over raw TCP against an independent authorisation model; marker scan; structural diff of the on-disk JSON",
     "assumptions": ["one server per test process (package-level mux and directories); cases use fresh group names"],
+}
+
+PROPS["C19"] = {
+    "units": [
+        rapid("name-validators", "group", "TestVerif_C19_NameValidators", 20000, 150000),
+        rapid("url-parsing", "webserver", "TestVerif_C19_UrlParsing", 8000, 60000),
+        rapid("confinement", "webserver", "TestVerif_C19_Confinement", 1500, 12000),
+    ],
+    "technique": "property-based testing (rapid): reference predicate for the validators; hostile request targets over raw TCP against the real server with sentinel files outside the roots",
+    "assumptions": ["Linux path semantics (filepath.Separator == '/')", "symlinks placed inside the roots by the operator are not a client-supplied name"],
+}
+
+PROPS["C18"] = {
+    "units": [
+        rapid("etag-headers", "webserver", "TestVerif_C18_EtagHeaders", 10000, 80000),
+        rapid("conditional-sequences", "webserver", "TestVerif_C18_ConditionalSequences", 300, 2500),
+        rapid("racing-writers", "webserver", "TestVerif_C18_RacingWriters", 60, 500),
+    ],
+    "technique": "property-based testing (rapid): header grammar vs reference, API sequences with a string-based tag oracle, racing writers + concurrent readers, crash-point enumeration with strace fault injection",
+    "assumptions": ["process crashes at syscall boundaries only (no power-loss model)", "successive versions differ in size (bodies of distinct sizes); equal-size-equal-mtime versions are counted, not judged"],
 }
 
 NOT_APPLICABLE = {}
